@@ -48,6 +48,9 @@ class BreakOrContinueOutOfLoopTransformer(
                 if loop.orelse not in ancestors:
                     return updated_node
 
+        if not self.node_is_selected(original_node):
+            return updated_node
+
         self.report_change(original_node)
 
         # is it directly inside an else body?
